@@ -13,17 +13,17 @@ import (
 
 	avstypes "github.com/ExocoreNetwork/exocore/x/avs/types"
 	dogfoodtypes "github.com/ExocoreNetwork/exocore/x/dogfood/types"
-	oracletypes "github.com/ExocoreNetwork/exocore/x/oracle/types"
 	operatortypes "github.com/ExocoreNetwork/exocore/x/operator/types"
+	oracletypes "github.com/ExocoreNetwork/exocore/x/oracle/types"
 )
 
 // OpState is the typed view of the operator store parts the monitors need (parsed from raw bytes).
 type OpState struct {
-	Fwd     map[string]string // operator(bech32)|chain -> key bytes (hex of tm proto key bytes)
-	ByChain map[string]string // chain|operator -> key hex
-	Prev    map[string]string // chain|operator -> previous key hex
-	Rev     map[string]string // chain|consAddrHEX -> operator bech32
-	Removal map[string]bool   // operator|chain
+	Fwd     map[string]string                              // operator(bech32)|chain -> key bytes (hex of tm proto key bytes)
+	ByChain map[string]string                              // chain|operator -> key hex
+	Prev    map[string]string                              // chain|operator -> previous key hex
+	Rev     map[string]string                              // chain|consAddrHEX -> operator bech32
+	Removal map[string]bool                                // operator|chain
 	Opted   map[string]operatortypes.OptedInfo             // operator/avs
 	USD     map[string]operatortypes.OperatorOptedUSDValue // avs/operator
 	AVSUSD  map[string]sdkmath.LegacyDec                   // avs
